@@ -39,6 +39,64 @@ static unsigned long in64 (void)
 #define VF_MAIN_END WITNESS_END (); return 0; }
 #endif
 
+/* ---- recording allocator (C04 contract; also keeps heap objects at concrete sizes under CBMC) ----
+   Installed into the real __gmp_*_func pointers (what mp_set_memory_functions does) by VF_MAIN_BEGIN when the harness
+   is compiled with -DVF_REC_ALLOC.  Under CBMC a request of 8k bytes (k <= VF_MAXL) is served by a malloc of that
+   *concrete* size selected by a case split, so a data-dependent size becomes a choice among concrete objects and every
+   access keeps its exact bounds check.  realloc/free assert the allocator contract: pointer is the block start and
+   the size passed is the block's current size.  vf_live counts live blocks (leak / double-free obligations). */
+#ifdef VF_REC_ALLOC
+#ifndef VF_MAXL
+#define VF_MAXL 12
+#endif
+static long vf_live = 0;
+#ifdef REPLAY
+static void *vf_alloc (size_t n)
+{ size_t *p = (size_t *) malloc (n + 16); if (!p) exit (4); p[0] = n; p[1] = 0x5a5a5a5a; vf_live++; return (void *) (p + 2); }
+static void vf_chk (void *o, size_t s, const char *w)
+{ size_t *p = (size_t *) o - 2; if (p[1] != 0x5a5a5a5a || p[0] != s) { printf ("REPLAY-FAIL allocator contract: %s got size %lu for a block of %lu\n", w, (unsigned long) s, (unsigned long) p[0]); exit (1); } }
+static void vf_free (void *o, size_t s) { vf_chk (o, s, "free"); ((size_t *) o - 2)[1] = 0; free ((size_t *) o - 2); vf_live--; }
+static void *vf_realloc (void *o, size_t os, size_t ns)
+{ void *p; vf_chk (o, os, "realloc"); p = vf_alloc (ns); memcpy (p, o, os < ns ? os : ns); vf_free (o, os); return p; }
+#else
+static void *vf_alloc (size_t n)
+{ void *p = 0;
+#define VF_TRY(k) if (p == 0 && (k) <= VF_MAXL && n == 8 * (k)) p = malloc (8 * (k));
+  VF_TRY (1) VF_TRY (2) VF_TRY (3) VF_TRY (4) VF_TRY (5) VF_TRY (6) VF_TRY (7) VF_TRY (8) VF_TRY (9) VF_TRY (10) VF_TRY (11) VF_TRY (12)
+  VF_TRY (13) VF_TRY (14) VF_TRY (15) VF_TRY (16) VF_TRY (17) VF_TRY (18) VF_TRY (19) VF_TRY (20) VF_TRY (21) VF_TRY (22) VF_TRY (23) VF_TRY (24)
+#ifdef VF_ALLOC_BYTES
+  if (p == 0) p = malloc (n);
+#else
+  if (p == 0) { __CPROVER_assert (0, "harness bound: allocation request is a multiple of 8 bytes and at most VF_MAXL limbs"); __CPROVER_assume (0); }
+#endif
+  vf_live = vf_live + 1; return p; }
+static void vf_free (void *o, size_t s)
+{ __CPROVER_assert (__CPROVER_POINTER_OFFSET (o) == 0 && __CPROVER_OBJECT_SIZE (o) == s, "allocator contract: free gets block start and exact current size");
+  free (o); vf_live = vf_live - 1; }
+static void *vf_realloc (void *o, size_t os, size_t ns)
+{ void *p;
+  __CPROVER_assert (__CPROVER_POINTER_OFFSET (o) == 0 && __CPROVER_OBJECT_SIZE (o) == os, "allocator contract: realloc gets block start and exact current size");
+  p = vf_alloc (ns);
+  if (os % 8 == 0 && ns % 8 == 0 && os <= 8 * VF_MAXL && ns <= 8 * VF_MAXL)
+    {
+#define VF_CP(k) if ((k) < VF_MAXL && 8 * (k) + 8 <= os && 8 * (k) + 8 <= ns) ((unsigned long *) p)[k] = ((unsigned long *) o)[k];
+      VF_CP (0) VF_CP (1) VF_CP (2) VF_CP (3) VF_CP (4) VF_CP (5) VF_CP (6) VF_CP (7) VF_CP (8) VF_CP (9) VF_CP (10) VF_CP (11)
+      VF_CP (12) VF_CP (13) VF_CP (14) VF_CP (15) VF_CP (16) VF_CP (17) VF_CP (18) VF_CP (19) VF_CP (20) VF_CP (21) VF_CP (22) VF_CP (23)
+    }
+#ifdef VF_ALLOC_BYTES
+  else memcpy (p, o, os < ns ? os : ns);
+#endif
+  free (o); vf_live = vf_live - 1; return p; }
+#endif
+#define VF_INSTALL_ALLOC() do { __gmp_allocate_func = vf_alloc; __gmp_reallocate_func = vf_realloc; __gmp_free_func = vf_free; } while (0)
+#undef VF_MAIN_BEGIN
+#ifdef REPLAY
+#define VF_MAIN_BEGIN int main (int argc, char **argv) { vf_load (argc, argv); VF_INSTALL_ALLOC ();
+#else
+#define VF_MAIN_BEGIN int main (void) { VF_INSTALL_ALLOC ();
+#endif
+#endif
+
 /* fidelity witness (probe P2): the encoding must see the real type sizes */
 #define VF_FIDELITY() do { CHECK (sizeof (mp_limb_t) == 8, "fidelity: limb is 64 bit"); \
   CHECK (sizeof (UDItype) == 8, "fidelity: UDItype is 64 bit"); \
@@ -90,4 +148,45 @@ static void vf_mpz_mk (mpz_ptr z, long alloc, long size)
   for (i = 0; i < alloc; i++) p[i] = in64 ();
   if (n > 0) ASSUME (p[n - 1] != 0);
   ALLOC (z) = alloc; SIZ (z) = size; PTR (z) = p; }
+
+/* ---- optional replacement of errno.c: harnesses that expect DIVIDE_BY_ZERO / SQRT_OF_NEGATIVE define VF_OWN_ERRNO
+   (and do not link errno.c); vf_expect_exc is the set of exception kinds the oracle allows on this path:
+   1 = divide by zero, 2 = sqrt of negative.  Reaching an exception ends the path (as the real abort does). */
+#ifdef VF_OWN_ERRNO
+int gmp_errno = 0;
+static int vf_expect_exc = 0;
+#ifdef REPLAY
+#define VF_EXC_END() do { puts ("REPLAY-OK"); exit (0); } while (0)
+#else
+#define VF_EXC_END() do { __CPROVER_assert (0, "WITNESS"); __CPROVER_assume (0); } while (0)
+#endif
+void __gmp_exception (int e) { CHECK (0, "unexpected __gmp_exception"); VF_EXC_END (); }
+void __gmp_divide_by_zero (void) { CHECK (vf_expect_exc & 1, "DIVIDE_BY_ZERO raised only where the manual says so"); VF_EXC_END (); }
+void __gmp_sqrt_of_negative (void) { CHECK (vf_expect_exc & 2, "SQRT_OF_NEGATIVE raised only where the manual says so"); VF_EXC_END (); }
+#define VF_NO_EXC_EXPECTED() CHECK (vf_expect_exc == 0, "documented exception was not raised")
+#endif
+
+/* magnitude helpers */
+static int vf_mag_eq (mpz_srcptr z, const mp_limb_t *m, long n)
+{ long i; while (n > 0 && m[n - 1] == 0) n--; if (ABSIZ (z) != n) return 0;
+  for (i = 0; i < n; i++) if (PTR (z)[i] != m[i]) return 0; return 1; }
+static void vf_mag_get (mp_limb_t *m, int W, mpz_srcptr z)
+{ int i; for (i = 0; i < W; i++) m[i] = i < ABSIZ (z) ? PTR (z)[i] : 0; }
+/* reference shifts on W-limb magnitudes by a (possibly symbolic) bit count */
+static void vf_mag_shr (mp_limb_t *r, const mp_limb_t *a, int W, unsigned long s)
+{ int i; unsigned long ls = s / 64, bs = s % 64;
+  for (i = 0; i < W; i++) { mp_limb_t lo = i + ls < W ? a[i + ls] : 0, hi = i + ls + 1 < W ? a[i + ls + 1] : 0;
+    r[i] = bs ? (lo >> bs) | (hi << (64 - bs)) : lo; } }
+static void vf_mag_shl (mp_limb_t *r, const mp_limb_t *a, int W, unsigned long s)
+{ int i; unsigned long ls = s / 64, bs = s % 64;
+  for (i = 0; i < W; i++) { mp_limb_t hi = i >= ls ? a[i - ls] : 0, lo = i >= ls + 1 ? a[i - ls - 1] : 0;
+    r[i] = bs ? (hi << bs) | (lo >> (64 - bs)) : hi; } }
+static unsigned long vf_mag_ctz (const mp_limb_t *a, int W)
+{ int i; unsigned long c = 0; for (i = 0; i < W; i++) { if (a[i]) return c + vf_bsf (a[i]); c += 64; } return c; }
+
+/* mpq with given allocs/sizes: num signed size SN, den signed size SD (valid objects have SD > 0) */
+static void vf_mpq_mk (mpq_ptr q, long an, long sn, long ad, long sd)
+{ vf_mpz_mk (mpq_numref (q), an, sn); vf_mpz_mk (mpq_denref (q), ad, sd); }
+static int vf_mpq_wf (mpq_srcptr q)
+{ return vf_mpz_wf (mpq_numref (q)) && vf_mpz_wf (mpq_denref (q)) && SIZ (mpq_denref (q)) > 0; }
 #endif
